@@ -44,7 +44,7 @@ var (
 	corpus  = flag.String("corpus", "", "corpus file: <tree tokens>;<data tokens> per line, hex encoded")
 	known   = flag.String("known", "", "known_findings.json")
 	workers = flag.Int("workers", 16, "parallel workers")
-	dev     = flag.String("dev", "v", "deviations the current tree is expected to have: v int via float64; for older trees: u uncomparable panic (before 0a3fd2c), q float != x (before 21415f8), b a filter that is a bare path is not an existence test (before 6b93c2a; trees before fe63c88, where Script() of jp.Get(x) was not one either, are no longer supported), r parser takes the second argument of match/search apart (before cd355fe); - none")
+	dev     = flag.String("dev", "-", "deviations the tree under test is expected to have; the current tree has none (-). For older trees: u uncomparable panic (before 0a3fd2c), q float != x (before 21415f8), v int compared as float64 (before 24fcf54), b a filter that is a bare path is not an existence test (before 6b93c2a; trees before fe63c88 are no longer supported), r parser takes the second argument of match/search apart (before cd355fe)")
 )
 
 var rep *lib.Report
